@@ -17,6 +17,7 @@ EXPLANATION = (
     "every ast.Constant whose value is not an instance of g_legal_capture_types - unconditionally, for every node - that tuple contains "
     "only immutable scalar types, and the gate dominates node construction in the three operators, applied to the very lambda that is emitted."
     " (R6) a name found in the capture snapshot is embedded whatever its value - membership, not truthiness, decides (C04.R3 re-evaluated)."
+    " (R1, as of D47) the escaping function is str.__repr__ (the text of the string whatever its class), and lists, tuples and dictionaries are built from their items instead of taking the text route."
 )
 NOT_DECIDED = "round-trip equality for every value of every listed type through repr/ast.parse (a statement over all inputs; shortest-repr of floats is trusted stdlib)."
 
